@@ -105,6 +105,10 @@ def bodies(depth, rich=False, rich_depth=1):
     for tv in typed_values(depth, rich, rich_depth):
         yield [tv]
         yield [(b'y', 1), tv]
+        # a value FOLLOWING X: exposes a cursor left in the wrong place after X (e.g. after the padding of an empty array)
+        yield [tv, (b'u', 0x11223344)]
+        yield [tv, (b's', b'z')]
+        yield [(b'y', 1), tv, (b'q', 0x1234), (b't', 0x0102030405060708)]
     if rich:
         firsts = [(b's', b'ab'), (b'ay', [(b'y', 1), (b'y', 2), (b'y', 3)]), (b'(y)', [(b'y', 9)])]
         for f in firsts:
